@@ -38,7 +38,18 @@ GARBAGE = [b'\x00\x00\x00', b'{"key":', b'\xff\xfe\xfd', b'not a cache file', b'
            b'[1, 2', b'{}', b'1', b'null']
 CTYPES = ['json', 'json_nonones', 'numpy', 'frame', 'memory']
 
+def _object_array(rows):
+    import numpy as np
+    a = np.empty(len(rows), dtype=object)
+    for i, r in enumerate(rows):
+        a[i] = r
+    return a
+
+
 np_values = st.one_of(
+    # ragged / mixed rows: an object array (NumpyArrayCache loads with allow_pickle=True, so it is in its domain)
+    st.lists(st.one_of(st.lists(st.integers(-3, 3), max_size=3), st.none(), st.text(max_size=2)), min_size=1,
+             max_size=3).map(_object_array),
     hnp.arrays(dtype=st.sampled_from(['int64', 'float64', 'bool', 'uint8', '<U3', 'S2', 'int16', 'complex128']),
                shape=hnp.array_shapes(min_dims=0, max_dims=3, min_side=0, max_side=3)),
 )
@@ -73,6 +84,8 @@ def value_strategy(ctype):
 def _enc(ctype, v):
     """JSON form of a value for the replay file."""
     if ctype == 'numpy':
+        if v.dtype == object:
+            return {'dtype': 'object', 'rows': v.tolist()}
         return {'dtype': str(v.dtype), 'shape': list(v.shape), 'data': v.tolist()}
     if ctype == 'frame':
         return {'cols': {str(c): v[c].tolist() for c in v.columns}}
@@ -82,6 +95,8 @@ def _enc(ctype, v):
 def _dec(ctype, e):
     if ctype == 'numpy':
         import numpy as np
+        if e['dtype'] == 'object':
+            return _object_array(e['rows'])
         return np.array(e['data'], dtype=e['dtype']).reshape(e['shape'])
     if ctype == 'frame':
         import pandas as pd
